@@ -112,6 +112,42 @@ def run(ctx: Ctx):
         check_variant(ctx, nested_item, bytes(v["nested"]), e5.header("L", 1) + bytes(v["canon"]), "nested", v["nlb"])
     for v in vec:
         check_allowed(ctx, v["item"], bytes(v["bytes"]))
+    # decoding depends on the CONTENT of the buffer, not on its identity: one receive buffer refilled in place with another
+    # valid encoding of the same length, and a message object created where a released one of the same length was
+    import secsgem.secs.variables as var
+    by_len = {}
+    for v in nlb:
+        if not has_j(v["item"]):
+            by_len.setdefault(len(v["bytes"]), []).append((bytes(v["bytes"]), bytes(v["canon"])))
+    nref = 0
+    for ln_, lst in sorted(by_len.items()):
+        lst = [x for i, x in enumerate(lst) if i == 0 or x[0] != lst[i - 1][0]]
+        for (a, _ca), (b, cb) in list(zip(lst, lst[1:]))[:8]:
+            nref += 1
+            try:
+                buf = bytearray(a)
+                var.Dynamic([]).decode(buf, 0)
+                buf[:] = b
+                d2 = var.Dynamic([])
+                pos = d2.decode(buf, 0)
+                again = bytes(d2.encode())
+                tmp = bytes(bytearray(a))                  # a message object that is released ...
+                var.Dynamic([]).decode(tmp, 0)
+                del tmp
+                tmp2 = bytes(bytearray(b))                 # ... and another one of the same length right after it
+                d3 = var.Dynamic([])
+                d3.decode(tmp2, 0)
+                again3 = bytes(d3.encode())
+            except Exception as exc:  # noqa: BLE001
+                ctx.violation({"check": "buffer-reuse", "error": type(exc).__name__, "first": a[:24].hex(), "second": b[:24].hex(),
+                               "what": f"decoding {b[:16].hex()} from a buffer that held {a[:16].hex()} before raised {exc!r}"})
+                continue
+            if pos != len(b) or again != cb or again3 != cb:
+                ctx.violation({"check": "buffer-reuse", "first": a[:24].hex(), "second": b[:24].hex(), "got": again[:24].hex(), "got_new_object": again3[:24].hex(),
+                               "canon": cb[:24].hex(),
+                               "what": f"valid encoding {b[:16].hex()} decoded from a buffer that held {a[:16].hex()} before gives {again[:16].hex()} / "
+                                       f"{again3[:16].hex()} instead of {cb[:16].hex()}"})
+    ctx.extra["buffer_reuse_pairs"] = nref
     ctx.evaluations += 2 * len(nlb) + len(vec)
     ctx.nontrivial += 2 * len(nlb)
     ctx.sample({"item": nlb[0]["item"], "nlb": nlb[0]["nlb"], "bytes": bytes(nlb[0]["bytes"]).hex(), "canonical": bytes(nlb[0]["canon"]).hex()})
